@@ -63,7 +63,8 @@ def cases(tier):
             out.append({"id": f"EXPR/{lid}/{a},{b}", "world": w, "op": "EXPR", "operands": [a, b]})
     # user expression written as a 3-argument kron over three operands of mixed type (factor k <-> operand k)
     for lid, w in _layouts(tier):
-        if lid in ("own-V", "ps[p1,c0,p0]-V", "ps[p0,c0]+ps[f1,p1]-V") or (thorough and lid.endswith("-M")):
+        # (Vector level only: three fully symbolic operators on an 8x8 symbolic density matrix did not finish in 15 minutes)
+        if lid in ("own-V", "ps[p1,c0,p0]-V", "ps[p0,c0]+ps[f1,p1]-V"):
             for o in (("p0", "p1", "c0"), ("c0", "p0", "p1"), ("p1", "c0", "p0")):
                 if not thorough and lid == "own-V" and o != ("p1", "c0", "p0"):
                     continue  # (~100 s each: three fully symbolic operators on an 8-dimensional symbolic state)
